@@ -44,7 +44,7 @@ def run(ctx):
     if missing:
         raise MachineryError(f"vacuous model run: no state in phase {sorted(missing)}")
     enumerated = len(cases)
-    for _ in range(300 if ctx.quick else 12000):
+    for _ in range(500 if ctx.quick else 30000):
         uni = persist.random_universe(rng)
         if rng.random() < 0.7:
             hist = persist.pipeline_history(rng, uni)
